@@ -40,13 +40,16 @@
 #include <tbox/base/object_pool.hpp>
 #include <tbox/event/loop.h>
 #include <sys/socket.h>
-#include <tbox/network/stdio_stream.h>
+#include <dlfcn.h>
+#include <errno.h>
 #include <tbox/util/buffer.h>
 #include <tbox/util/split_cmdline.h>
 
 // the scanner's step_, and the services' Impl classes, are private: open them for the harness
 #define private public
 #define protected public
+#include <tbox/network/buffered_fd.h>
+#include <tbox/network/stdio_stream.h>
 #include <tbox/network/tcp_server.h>
 #include <tbox/network/tcp_connection.h>
 #include <tbox/terminal/impl/key_event_scanner.h>
@@ -59,6 +62,7 @@
 #include <tbox/terminal/impl/service/telnetd.h>
 #include <tbox/terminal/impl/service/tcp_rpc.h>
 #include <tbox/terminal/impl/service/stdio.h>
+#include <tbox/terminal/impl/terminal.h>
 #undef private
 #undef protected
 
@@ -68,6 +72,24 @@ using namespace tbox::terminal;
 // ------------------------------------------------------------------ protocol I/O (not on fd 0/1)
 static FILE *g_in = nullptr, *g_out = nullptr;
 static void outln(const std::string &s) { fputs(s.c_str(), g_out); fputc('\n', g_out); fflush(g_out); }
+
+// ------------------------------------------------------------------ the kernel's answers to write() on the clients' sockets
+// mode per server-side fd (op `wfault k m`): 0 everything is taken, 1 short counts (1..3 bytes), 2 EAGAIN on every
+// other call, 3 EPIPE (BufferedFd::send logs and drops the data). What BufferedFd queues is flushed at the end of the
+// op by the calls the loop's write event would make (pump_clients), so the client sees the same bytes in the same order.
+static int g_wmode[4096];
+static unsigned g_wcalls = 0;
+typedef ssize_t (*write_t)(int, const void *, size_t);
+static write_t real_write() { static write_t f = (write_t)dlsym(RTLD_NEXT, "write"); return f; }
+extern "C" ssize_t write(int fd, const void *p, size_t n) {
+    int m = (fd >= 0 && fd < 4096) ? g_wmode[fd] : 0;
+    if (m == 0 || n == 0) return real_write()(fd, p, n);
+    ++g_wcalls;
+    if (m == 3) { errno = EPIPE; return -1; }
+    if (m == 2 && (g_wcalls & 1)) { errno = EAGAIN; return -1; }
+    size_t k = (m == 1) ? 1 + g_wcalls % 3 : n;
+    return real_write()(fd, p, k < n ? k : n);
+}
 
 // ------------------------------------------------------------------ event recording, per slot
 static const int kSlots = 8, kNoSlot = 8;          // index 8: lines of the op itself / world B
@@ -117,6 +139,8 @@ struct Client {                 // a telnet / raw-TCP client (slots 4..6): the c
     network::TcpServer::ConnToken ct;
     network::TcpConnection *conn = nullptr;   // (owned by the TcpServer)
     int fd = -1;
+    int sfd = -1;               // the server's end (for the write() answers)
+    bool gone = false;          // the client closed its end; the service has not noticed yet
     int state = 0;              // 0 never connected, 1 connected, 2 gone
     std::vector<uint8_t> pending;
 };
@@ -153,24 +177,50 @@ struct WorldA {
     network::TcpServer::ConnToken last_ct;
     network::TcpServer *server_of(size_t slot) { return slot < 6 ? tel->sp_tcp_ : rpc->sp_tcp_; }
     // what the real Telnetd / TcpRpc -> TcpServer -> TcpConnection wrote to the clients' sockets, and who was disconnected
+    // what the loop's write event would do for data BufferedFd had to queue (short counts, EAGAIN): one call
+    bool pump_one(int k) {
+        Client &c = cli[k];
+        if (c.state != 1 || c.gone || !c.conn || !server_of(4 + k)->isClientValid(c.ct)) return false;
+        if (c.sfd >= 0 && g_wmode[c.sfd] == 3) return false;
+        network::BufferedFd *b = c.conn->sp_buffered_fd_;
+        if (!b || b->send_buff_.readableSize() == 0) return false;
+        b->onWriteCallback(0);
+        return true;
+    }
+    // the service noticed (in a loop pass) that a client had closed its end
+    void reap_gone() {
+        for (int k = 0; k < 3; ++k) {
+            Client &c = cli[k];
+            if (c.state == 1 && c.gone && !server_of(4 + k)->isClientValid(c.ct)) {
+                c.state = 2; c.gone = false; c.conn = nullptr; c.pending.clear();
+                if (c.sfd >= 0) g_wmode[c.sfd] = 0;
+            }
+        }
+    }
     void drain_clients() {
         char buf[4096];
         for (int k = 0; k < 3; ++k) {
             Client &c = cli[k];
+            for (int guard = 0; guard < 1000000 && pump_one(k); ++guard) {      // (many small writes fill the socket: read in between)
+                ssize_t n;
+                while (c.fd >= 0 && (n = ::read(c.fd, buf, sizeof buf)) > 0) tx(4 + k, buf, (size_t)n);
+            }
             while (c.fd >= 0) {
                 ssize_t n = ::read(c.fd, buf, sizeof buf);
                 if (n > 0) { tx(4 + k, buf, (size_t)n); continue; }
                 if (n == 0) {
                     ev(4 + k, "P closed " + std::to_string(4 + k));
                     ::close(c.fd); c.fd = -1; c.conn = nullptr; c.state = 2; c.pending.clear();
+                    if (c.sfd >= 0) g_wmode[c.sfd] = 0;
                 }
                 break;
             }
         }
     }
-    void close_clients() { for (auto &c : cli) if (c.fd >= 0) { ::close(c.fd); c.fd = -1; } }
+    bool any_gone() const { for (auto &c : cli) if (c.gone) return true; return false; }
+    void close_clients() { for (auto &c : cli) { if (c.fd >= 0) { ::close(c.fd); c.fd = -1; } if (c.sfd >= 0) g_wmode[c.sfd] = 0; c.gone = false; } }
     int front_end_pending = 0;         // endSession tasks of Telnetd/TcpRpc queued by command handlers
-    void pass() { loop->runNext([] {}, "verif-pass"); loop->runLoop(event::Loop::Mode::kOnce); front_end_pending = 0; }
+    void pass() { loop->runNext([] {}, "verif-pass"); loop->runLoop(event::Loop::Mode::kOnce); front_end_pending = 0; reap_gone(); }
     void drain_stdout() {
         drain_clients();
         if (out_r < 0) return;
@@ -399,7 +449,8 @@ int main(int argc, char **argv) {
         if (op == "srecv") g_op_slot = 7;
         if (op == "sel" && w.size() == 2 && idx(w[1], 4, i)) {
             A->cur = (int)i; ev("P sel");
-        } else if (op == "open" && w.size() == 2 && vh::to_u64(w[1], n) && n < 4 && !A->opened[c]) {
+        } else if (op == "open" && w.size() == 2 && vh::to_u64(w[1], n) && n < 4 &&
+                   (!A->opened[c] || A->term->impl_->sessions_.at(A->conn[c].tok) == nullptr)) {
             A->conn[c].tok = A->term->newSession(&A->conn[c]);
             A->opened[c] = true;
             A->term->setOptions(A->conn[c].tok, (uint32_t)n);
@@ -431,7 +482,8 @@ int main(int argc, char **argv) {
             int sv[2];
             if (socketpair(AF_UNIX, SOCK_STREAM, 0, sv) != 0) return 6;
             fcntl(sv[1], F_SETFL, fcntl(sv[1], F_GETFL) | O_NONBLOCK);
-            cl.fd = sv[1]; cl.pending.clear(); cl.state = 1;
+            cl.fd = sv[1]; cl.sfd = sv[0]; cl.gone = false; cl.pending.clear(); cl.state = 1;
+            if (sv[0] < 4096) g_wmode[sv[0]] = 0;
             // as TcpAcceptor does for an accepted socket
             auto *conn = new network::TcpConnection(A->loop, network::SocketFd(sv[0]), network::SockAddr());
             A->server_of(i)->onTcpConnected(conn);
@@ -447,11 +499,25 @@ int main(int argc, char **argv) {
             if (cl.state == 1) {
                 // the client went away: what TcpConnection does when its read event finds end-of-file
                 cl.conn->onSocketClosed();
-                ::close(cl.fd); cl.fd = -1; cl.conn = nullptr;
+                if (cl.fd >= 0) ::close(cl.fd);
+                cl.fd = -1; cl.conn = nullptr; cl.gone = false;
                 cl.state = 2; cl.pending.clear();
+                if (cl.sfd >= 0) g_wmode[cl.sfd] = 0;
             }
             ev("P disc");
-        } else if (op == "sstart" && w.size() == 1 && A->stdio_state == 0) {
+        } else if (op == "wfault" && w.size() == 3 && idx(w[1], 7, i) && i >= 4 && vh::to_u64(w[2], n) && n < 4 &&
+                   A->cli[i - 4].state == 1 && !A->cli[i - 4].gone) {
+            Client &cl = A->cli[i - 4];
+            A->drain_clients();
+            if (cl.state != 1) ok = false;
+            else { if (cl.sfd >= 0 && cl.sfd < 4096) g_wmode[cl.sfd] = (int)n; ev("P wfault"); }
+        } else if (op == "xclose" && w.size() == 2 && idx(w[1], 7, i) && i >= 4 && A->cli[i - 4].state == 1 && !A->cli[i - 4].gone &&
+                   (A->stdio_state == 0 || A->stdio_state == 3)) {
+            Client &cl = A->cli[i - 4];
+            A->drain_clients();          // (what was sent so far is reported, nothing is left unread)
+            if (cl.state != 1) ok = false;
+            else { ::close(cl.fd); cl.fd = -1; cl.gone = true; ev("P xclose"); }
+        } else if (op == "sstart" && w.size() == 1 && A->stdio_state == 0 && !A->any_gone()) {
             int pi[2], po[2];
             if (pipe(pi) != 0 || pipe(po) != 0) return 4;
             dup2(pi[0], 0); ::close(pi[0]); dup2(po[1], 1); ::close(po[1]);
